@@ -42,6 +42,7 @@ def parse_sx(t):
 def untext(x):
     """bytes atoms -> str (utf-8, lossless for invalid bytes), lists stay lists"""
     if isinstance(x, bytes): return x.decode("utf-8", "surrogateescape")
+    if isinstance(x, str): return x
     return [untext(y) for y in x]
 
 def to_coq(x):
@@ -218,6 +219,17 @@ class Ctx:
 
     def fail(self, signature, case, detail):
         """an input on which the PROPERTY (not the correspondence) fails on the implementation"""
+        m = re.fullmatch(r"[^/]+/known:(.+)", signature)
+        if m:
+            # a failure explained by recorded causes: every cause must be an open finding
+            causes = m.group(1).split("+"); owners = []
+            for c in causes:
+                o = [e for e in self.known if e.get("status") == "open" and e.get("cause") == c]
+                if not o: break
+                owners.append(o[0])
+            else:
+                for o in owners: self.known_hits[o["id"]] += 1
+                return False
         for e in self.known:
             if e.get("status") == "open" and re.fullmatch(e["signature"], signature):
                 self.known_hits[e["id"]] += 1; return False
@@ -240,7 +252,7 @@ class Ctx:
             viol.append("VIOLATION property=%s replay=%s" % (self.prop, p))
         coq_failed = self.coq["failed"] if self.coq else ["coq step not run"]
         indom = [d for d in self.disagreements if d["stream"] != "out-of-domain"]
-        if not viol and (coq_failed or indom or (self.crosscheck and self.crosscheck[1])):
+        if (not viol and (indom or (self.crosscheck and self.crosscheck[1]))) or coq_failed:
             what = []
             if coq_failed: what.append(dict(broken="proof", detail=coq_failed))
             if indom: what.append(dict(broken="correspondence model<->implementation", property_model="coq/M_%s.v" % self.prop, cases=indom[:20], total=len(indom)))
@@ -263,7 +275,7 @@ class Ctx:
             rule=self.rule,
             samples=self.samples[:6],
             feature_histogram=dict(self.hist.most_common(60)),
-            correspondence=dict(disagreements_in_domain=len(indom), disagreements_out_of_domain=len(drift),
+            correspondence=dict(disagreements_in_domain=len(indom), disagreements_out_of_domain=len(drift), first_disagreements=[dict(stream=d['stream'], case=d['case'], impl=d['impl'], model=d['model']) for d in self.disagreements[:8]],
                                 extraction_vs_vm_compute=dict(checked=self.crosscheck[0], mismatches=len(self.crosscheck[1])) if self.crosscheck else None),
             known_findings=[dict(id=e["id"], status=e["status"], hits_this_run=self.known_hits.get(e["id"], 0), still_fails=e.get("still_fails")) for e in self.known],
             exhaustive=self.exhaustive,
@@ -273,6 +285,7 @@ class Ctx:
                   assumptions=self.trusted, wall_s=round(time.time() - self.t0, 2), violations=len(viol))
         json.dump(ev, open(os.path.join(VERIF, "evidence", self.prop + ".json"), "w"), indent=1, default=repr, ensure_ascii=True)
         for v in viol: print(v)
+        for c in coq_failed: print("CHECK-BROKEN: " + c[-1500:])
         print("%s %s: obligations %d/%d, %d evaluations (%d distinct non-trivial), %d in-domain disagreements, %d drift, %d new failing inputs, %.1fs"
               % (self.prop, self.tier, cov["discharged"], cov["obligations"], self.evaluations, len(self.nontrivial), len(indom), len(drift), len(self.failures), time.time() - self.t0))
         return 1 if viol else 0
